@@ -192,7 +192,7 @@ func runC08(c *core.Ctx) {
 				if core.ResultNilness(ret, errIdx) == core.NonNil {
 					continue
 				}
-				if path, reached := core.Reach(fn, nil, isTarget(ret), nil, isHook); reached {
+				if path, reached := core.Reach(fn, nil, successReturn(ret, errIdx), nil, isHook); reached {
 					bad = true
 					wp = p.Witness(path)
 				}
